@@ -681,6 +681,10 @@ def register(w, ctx, mods, log=None, faults=None):
             fn = next(f_ for f_ in w.funcs if f_.get_name() == fsym_name(m["f"]))
             ctx.delete_function(fn)
             continue
+        if m["op"] == "newfunc":
+            w.new_function_symbols = getattr(w, "new_function_symbols", {})
+            w.new_function_symbols[m["name"]] = ctx.register_insert_function(m["name"], make_patch(isa_, m["p"], log, (faults or {}).get(mid)))
+            continue
         if m["op"] == "scope":
             from gtirb_rewriting import AllBlocksScope, BlockPosition, Constraints, Patch
 
